@@ -110,6 +110,17 @@ def _replay_sticky(opt, kind):
             e.finalize()
             if any(rets) or p0 != p1 or list(o0.data.value) != list(o1.data.value) or list(o0.t.value) != list(o1.t.value):
                 return True
+            # a time-sliced run that reports 'finished' although the simulation is not: the next loop call continues
+            e = real_engine(opt)
+            e.setup(make_script(system, opt, 0.001, policy="on_iteration", t_max=0.5, isp="auto", seed=seed))
+            finished_early = False
+            for _ in range(3):
+                if not e.run(0):
+                    finished_early = bool(e.iterate()) or bool(e.iterate_n(2))
+                    break
+            e.finalize()
+            if finished_early:
+                return True
         return False
     except Exception:
         return False
